@@ -629,7 +629,8 @@ class Run:
     cid = op['cid']
     before = plain(self.root)
     raised = None
-    self.env.pop('y', None)
+    if op.get('result'):
+      self.env.pop('y', None)
     try:
       if s.scope_partial:
         with pg.allow_partial(True):
